@@ -14,8 +14,10 @@ import (
 var update = flag.Bool("update", false, "rewrite testdata/golden/*.v")
 
 // callees in other packages the fixtures use (always given first)
-var foreign = []string{"clockNow#extern", "fixture/dep:Twice", "fixture/dep:Cfg.Apply", "encoding/binary:bigEndian.Uint16", "encoding/binary:bigEndian.Uint64",
-	"encoding/binary:littleEndian.Uint32", "encoding/binary:littleEndian.Uint64"}
+var foreign = []string{"clockNow#extern", "fixture/dep:Twice", "fixture/dep:Cfg.Apply", "encoding/binary:bigEndian.Uint16", "encoding/binary:bigEndian.Uint32",
+	"encoding/binary:bigEndian.Uint64", "encoding/binary:littleEndian.Uint16", "encoding/binary:littleEndian.Uint32", "encoding/binary:littleEndian.Uint64",
+	"encoding/binary:littleEndian.PutUint16", "encoding/binary:littleEndian.PutUint32", "encoding/binary:bigEndian.PutUint64", "io:ReadFull#externw",
+	"Nodes.Len", "Nodes.Less", "Nodes.Swap", "fixture/hp:Up@Nodes", "fixture/hp:Down@Nodes", "fixture/hp:Fix@Nodes"}
 
 func scanAll(p *Pkg) (*Translator, map[string]*Func) {
 	var names []string
@@ -89,7 +91,7 @@ func TestPrefix(t *testing.T) {
 func TestGolden(t *testing.T) {
 	names := []string{"AddU8", "AddI8", "ConstShift", "VarShl", "ShlS", "Div", "ConstDiv", "Cmp", "EqB", "Clamp", "Normalize",
 		"Shadow", "Named", "Swap", "Switch", "Ring.Next", "Ring.Len", "Ring.Twice", "Ring.Deep", "Outer", "At", "Tail", "BE16", "AndSafe",
-		"Guard", "Search", "Ring.Search", "Hash", "Ring.RangePrefix#prefix", "WalkPrefix#prefix", "Counter.SetSeq", "Counter.Bump", "Counter.Drain", "Counter.SumHist", "clockNow#extern", "Counter.Stamp", "fixture/dep:Cfg.Apply", "Holder.Scaled", "encoding/binary:bigEndian.Uint16", "UseStd", "Find", "RangeAssign", "Forever", "Nested", "LoopSwitch", "Sum", "LoopCall"}
+		"Guard", "Search", "Ring.Search", "Hash", "Ring.RangePrefix#prefix", "WalkPrefix#prefix", "Fill", "SetAt", "SwapEnds", "PutBE16", "ArrayArg", "MakeCopy", "Rotate1", "Frame.Stamp", "Frame.StampTwice", "Check", "Classify", "encoding/binary:littleEndian.Uint16", "encoding/binary:littleEndian.PutUint16", "Buf.Put16", "Buf.Get16", "Buf.Get8", "Buf.Peek16", "Nodes.Len", "Nodes.Less", "Nodes.Swap", "fixture/hp:Up@Nodes", "fixture/hp:Down@Nodes", "fixture/hp:Fix@Nodes", "Sched.Bump", "Slots.Take", "Slots.Resize", "Counter.SetSeq", "Counter.Bump", "Counter.Drain", "Counter.SumHist", "clockNow#extern", "Counter.Stamp", "fixture/dep:Cfg.Apply", "Holder.Scaled", "encoding/binary:bigEndian.Uint16", "UseStd", "io:ReadFull#externw", "ReadLen", "Find", "RangeAssign", "Forever", "Nested", "LoopSwitch", "Sum", "LoopCall"}
 	T := New(Load("../testdata", "fixture", "basic"), "go_")
 	for _, n := range names {
 		if f := T.Translate(n); f.Err != nil {
@@ -125,10 +127,11 @@ func TestBadRefused(t *testing.T) {
 	p := Load("../testdata", "fixture", "bad")
 	T0 := New(p, "go_")
 	T0.Translate("clock#extern")
+	T0.Translate("S.ext#extern")
 	res := map[string]*Func{}
 	for pass := 0; pass < 3; pass++ {
 		for n := range p.Decls {
-			if f := res[n]; (f == nil || f.Err != nil) && n != "clock" {
+			if f := res[n]; (f == nil || f.Err != nil) && n != "clock" && n != "S.ext" {
 				res[n] = T0.Translate(n)
 			}
 		}
@@ -194,10 +197,11 @@ func TestDifferential(t *testing.T) {
 	// callees first: translate in dependency order by repeating (the validator reports the rest)
 	T := New(Load("../testdata", "fixture", "basic"), "go_")
 	ordered := append([]string{}, foreign...)
+	done := map[string]bool{}
 	for _, n := range foreign {
 		T.Translate(n)
+		done[n] = true
 	}
-	done := map[string]bool{}
 	for progress := true; progress; {
 		progress = false
 		for _, n := range names {
